@@ -259,6 +259,7 @@ class Interp:
             info = self.crates.get(c)
             if info is None: continue
             k = info.variant_index(base, var)
+            if k is None and base in info.aliases: k = info.variant_index(info.aliases[base], var)
             if k is not None: return k
         if base in BUILTIN_ENUMS and var in BUILTIN_ENUMS[base]: return BUILTIN_ENUMS[base].index(var)
         return None
@@ -755,7 +756,7 @@ class Interp:
             raise Unsupported('rvalue (unknown enum) ' + s)
         mt = re.match(r'^(\w+)\((.*)\)$', mst)
         if mt and mt.group(1)[0].isupper():
-            inner = s[len(mt.group(1)) + 1:-1]
+            inner = s[self._open_paren(mask_literals(s), len(s) - 1) + 1:-1]
             fs = [self.c_operand(f, fn) for f in split_top(inner)]
             nm = mt.group(1)
             return lambda ctx, fr: Agg(nm, [f(ctx, fr) for f in fs])
@@ -937,7 +938,7 @@ class Interp:
             a0 = deref(args[0])
             if isinstance(a0, Agg) and a0.vidx is None or isinstance(a0, Agg) and a0.name not in ('Option', 'Result', 'tuple'):
                 k2 = '<' + a0.name + key[key.index(' as '):]
-                if self.resolve_static(crate, k2) is not None and self.resolve_static(crate, k2)[0] == 'fn': key = k2
+                if self.resolve_static(crate, k2) is not None: key = k2
         tgt = self.resolve_static(crate, key)
         if tgt is None:
             raise Unsupported('no model or MIR for call ' + key)
